@@ -160,39 +160,45 @@ Module DacTree.
 
   (* ---- set-group-id inheritance (inode_init_owner): /h/s made alice:2000 02777.  bob (group 1000) creates a
      directory and a file there: both get group 2000, the directory also the set-group-id bit ------------------------- *)
-  Definition dtree_sg : heap :=
+  (* the tree with the meta data of /h/s as a parameter *)
+  Definition dtree_m (m3 : meta) : heap :=
     [ NDir [(n_h, 1); (n_e, 4); (n_t, 6)] (mk (N.lor MODE_DIR 493) 0 0)
     ; NDir [(n_f, 2); (n_s, 3)] (mk (N.lor MODE_DIR 488) 1000 1000)
     ; NFile [7%N] 1 1 (mk 416 1000 1000)
-    ; NDir [] (mk (N.lor MODE_DIR (N.lor MODE_SETGID 511)) 1000 2000)
+    ; NDir [] m3
     ; NDir [(n_p, 5); (n_q, 8)] (mk (N.lor MODE_DIR 493) 0 0)
     ; NFile [] 1 2 (mk 420 0 0)
     ; NDir [(n_b, 7)] (mk (N.lor MODE_DIR (N.lor MODE_STICKY 511)) 0 0)
     ; NFile [] 1 3 (mk 420 1001 1000)
     ; NFile [] 1 4 (mk 420 1000 2000) ].
-  Definition dfs_sg : fsys := {| f_heap := dtree_sg; f_last_id := 4; f_vols := [] |}.
+  Definition dfs_m (m3 : meta) : fsys := {| f_heap := dtree_m m3; f_last_id := 4; f_vols := [] |}.
+  Definition dtree_sg : heap := dtree_m (mk (N.lor MODE_DIR (N.lor MODE_SETGID 511)) 1000 2000).
+  Definition dfs_sg : fsys := dfs_m (mk (N.lor MODE_DIR (N.lor MODE_SETGID 511)) 1000 2000).
 
-  Lemma dtree_sg_edges d n c :
-    dedge dtree_sg d n c -> In (d, c) [(0,1); (0,4); (0,6); (1,2); (1,3); (4,5); (4,8); (6,7)].
+  Lemma dtree_m_edges m3 d n c :
+    dedge (dtree_m m3) d n c -> In (d, c) [(0,1); (0,4); (0,6); (1,2); (1,3); (4,5); (4,8); (6,7)].
   Proof.
     unfold dedge, children, get.
     do 9 (destruct d as [|d]; [cbn; intros H; repeat (destruct H as [[= <- <-]|H]; [repeat (first [left; reflexivity | right])|]); destruct H|]).
     destruct d; cbn; intros [].
   Qed.
 
-  Example dtree_sg_hyps (u : user) (um : N) : dac_hyps dfs_sg (svu u um).
+  Example dtree_m_hyps (m3 : meta) (u : user) (um : N) : dac_hyps (dfs_m m3) (svu u um).
   Proof.
     split; [reflexivity| | |reflexivity].
     - apply increasing_wf.
-      + intros d n c H. apply dtree_sg_edges in H. cbn [In] in H.
+      + intros d n c H. apply dtree_m_edges in H. cbn [In] in H.
         repeat (destruct H as [[= <- <-]|H]; [lia|]). destruct H.
-      + intros d1 n1 d2 n2 c H1 H2 _. apply dtree_sg_edges in H1, H2. cbn [In] in H1, H2.
+      + intros d1 n1 d2 n2 c H1 H2 _. apply dtree_m_edges in H1, H2. cbn [In] in H1, H2.
         repeat (destruct H1 as [H1|H1]); try contradiction; injection H1 as <- <-;
           repeat (destruct H2 as [H2|H2]); try contradiction; congruence.
     - intros d n i t m _. unfold get.
-      do 9 (destruct i as [|i]; [cbn [nth_error dtree_sg dfs_sg f_heap]; intros E; discriminate E|]).
+      do 9 (destruct i as [|i]; [cbn [nth_error dtree_m dfs_m f_heap]; intros E; discriminate E|]).
       destruct i; discriminate.
   Qed.
+
+  Example dtree_sg_hyps (u : user) (um : N) : dac_hyps dfs_sg (svu u um).
+  Proof. exact (dtree_m_hyps _ u um). Qed.
 
   Example mkdir_setgid_inherits :
     let p := abs_path ([n_h; n_s] ++ [n_n]) in
@@ -240,14 +246,32 @@ Module DacTree.
     /\ snd (go_rename dfs (svu alice 18) o p) = SOk.
   Proof.
     split; [|vm_compute; reflexivity].
-    apply (dstep_rename_dir_new dfs (svu alice 18) [n_h] n_s [n_h] n_g (dtree_hyps alice 18)); [path_ok_tac|path_ok_tac| | | | |].
+    apply (dstep_rename_dir_new dfs (svu alice 18) [n_h] n_s [n_h] n_g (dtree_hyps alice 18)); [path_ok_tac|path_ok_tac| | | |].
     - intros par kind name n HK. vm_compute in HK. injection HK as _ _ _ <-. reflexivity.
     - intros par kind name n HK. vm_compute in HK. discriminate HK.
     - intros par name md e HK. vm_compute in HK. discriminate HK.
     - intros opar okind oname oc npar nname md HKo HKn. vm_compute in HKo, HKn.
       injection HKo as _ _ _ <-. injection HKn as <- _ _. vm_compute. split; reflexivity.
+  Qed.
+
+  (* her directory /h/s made 0500: moving it to ANOTHER directory (/t, where she may write) is refused with EACCES on
+     both sides - the ".." entry of the moved directory would change (the former deviation C03-RENAME-DIR-WRITE) *)
+  Definition dfs_ro : fsys := dfs_m (mk (N.lor MODE_DIR 320) 1000 1000).
+  Example rename_dir_unwritable_refused :
+    let o := abs_path ([n_h] ++ [n_s]) in
+    let p := abs_path ([n_t] ++ [n_g]) in
+    (fst (rename dfs_ro (view_of alice 18) o p), proj_res Linux (snd (rename dfs_ro (view_of alice 18) o p)))
+    = go_rename dfs_ro (svu alice 18) o p
+    /\ snd (go_rename dfs_ro (svu alice 18) o p) = SErr EACCES
+    /\ snd (go_rename dfs_ro (svu alice 18) o (abs_path ([n_h] ++ [n_g]))) = SOk.
+  Proof.
+    split; [|split; vm_compute; reflexivity].
+    apply (dstep_rename_dir_new dfs_ro (svu alice 18) [n_h] n_s [n_t] n_g (dtree_m_hyps _ alice 18)); [path_ok_tac|path_ok_tac| | | |].
+    - intros par kind name n HK. vm_compute in HK. injection HK as _ _ _ <-. reflexivity.
+    - intros par kind name n HK. vm_compute in HK. discriminate HK.
+    - intros par name md e HK. vm_compute in HK. discriminate HK.
     - intros opar okind oname oc npar nname md HKo HKn. vm_compute in HKo, HKn.
-      injection HKo as <- _ _ _. injection HKn as <- _ _. left. reflexivity.
+      injection HKo as _ _ _ <-. injection HKn as <- _ _. vm_compute. split; reflexivity.
   Qed.
 
   (* alice owns /e/q but may not write /e: replacing /h/f by it is refused on both sides (EACCES), and allowed the
@@ -259,12 +283,25 @@ Module DacTree.
     /\ snd (go_rename dfs (svu alice 18) o p) = SErr EACCES.
   Proof.
     split; [|vm_compute; reflexivity].
-    apply (dstep_rename_replace_result dfs (svu alice 18) [n_e] n_q [n_h] n_f (dtree_hyps alice 18)); [path_ok_tac|path_ok_tac| | | |].
+    apply (dstep_rename_replace_result dfs (svu alice 18) [n_e] n_q [n_h] n_f (dtree_hyps alice 18)); [path_ok_tac|path_ok_tac| | |].
     - intros par kind name n HK. vm_compute in HK. injection HK as _ _ _ <-. reflexivity.
     - eexists _, _, _, _. vm_compute. reflexivity.
     - intros par kind name n HK. vm_compute in HK. injection HK as _ _ _ <-. split; reflexivity.
-    - intros opar okind oname oc npar nkind nname nc HKo HKn. vm_compute in HKo, HKn.
-      injection HKo as _ _ _ <-. injection HKn as _ _ _ <-. discriminate.
+  Qed.
+
+  (* a rename onto itself needs no permission: carol may neither search /h nor write /e, but Rename(/e/q, /e/q) succeeds on
+     both sides (the former deviation C03-RENAME-SAME: MemFS tested the write permission on /e first) *)
+  Example rename_same_no_permission :
+    let o := abs_path ([n_e] ++ [n_q]) in
+    proj_res Linux (snd (rename dfs (view_of carol 18) o o)) = snd (go_rename dfs (svu carol 18) o o)
+    /\ snd (go_rename dfs (svu carol 18) o o) = SOk
+    /\ kperm dtree 4 2 carol = false.
+  Proof.
+    split; [|split; vm_compute; reflexivity].
+    apply (dstep_rename_replace_result dfs (svu carol 18) [n_e] n_q [n_e] n_q (dtree_hyps carol 18)); [path_ok_tac|path_ok_tac| | |].
+    - intros par kind name n HK. vm_compute in HK. injection HK as _ _ _ <-. reflexivity.
+    - eexists _, _, _, _. vm_compute. reflexivity.
+    - intros par kind name n HK. vm_compute in HK. injection HK as _ _ _ <-. split; reflexivity.
   Qed.
 
   (* ---- Remove in a sticky directory.  /t is sticky, /t/b is bob's: alice (who may write /t) is refused with EPERM on
